@@ -2,6 +2,7 @@ package vgen
 
 import (
 	"fmt"
+	"sort"
 
 	"golang.org/x/telemetry/internal/telemetry"
 	"golang.org/x/telemetry/internal/verif/vmodel"
@@ -69,6 +70,9 @@ func MutateReport(t *rapid.T, cfg *telemetry.UploadConfig, r *telemetry.Report) 
 	if len(r.Programs) > 0 {
 		kinds = append(kinds, "program", "version", "goversion", "goos", "goarch", "counter", "literal", "stackprefix", "counter-like-stack", "stack-like-counter",
 			"program", "version", "goversion", "goos", "goarch", "counter", "stackprefix")
+	}
+	if len(r.Programs) > 1 {
+		kinds = append(kinds, "item-of-other-program", "item-of-other-program")
 	}
 	kind := rapid.SampledFrom(kinds).Draw(t, "mutation")
 	var p *telemetry.ProgramReport
@@ -155,6 +159,38 @@ func MutateReport(t *rapid.T, cfg *telemetry.UploadConfig, r *telemetry.Report) 
 			return ""
 		}
 		p.Counters[name] = 1
+	case "item-of-other-program":
+		// an item another program of the same report carries (approved there) that is not listed for this one
+		type item struct {
+			stack bool
+			key   string
+		}
+		var cands []item
+		for _, q := range r.Programs {
+			if q == p {
+				continue
+			}
+			for k := range q.Stacks {
+				if _, ok := vmodel.StackRate(cfg, p.Program, k); !ok {
+					cands = append(cands, item{true, k})
+				}
+			}
+			for k := range q.Counters {
+				if _, ok := vmodel.CounterRate(cfg, p.Program, k); !ok {
+					cands = append(cands, item{false, k})
+				}
+			}
+		}
+		if len(cands) == 0 {
+			return ""
+		}
+		sort.Slice(cands, func(a, b int) bool { return cands[a].key < cands[b].key })
+		it := cands[rapid.IntRange(0, len(cands)-1).Draw(t, "otherItem")]
+		if it.stack {
+			p.Stacks[it.key] = 1
+		} else {
+			p.Counters[it.key] = 1
+		}
 	case "stack-like-counter":
 		// a stack whose first line is a listed plain counter, not a listed stack
 		name := "a/b"
